@@ -94,7 +94,18 @@ func (c *wsConnection) subscribe(ctx context.Context, id string, req *common.Req
 	c.subs[id] = handler
 	c.subsMu.Unlock()
 
-	subscribeCtx, subscribeCancel := context.WithTimeout(ctx, c.writeTimeout)
+	// The caller is gone already: nothing to write. Take the normal removal path so
+	// that a connection nobody uses (e.g. one this caller has just dialled) is closed.
+	if err := ctx.Err(); err != nil {
+		c.removeSub(id)
+		return nil, err
+	}
+
+	// The frame is written on a connection shared with other subscriptions, and
+	// coder/websocket closes the whole connection when the context of a write ends.
+	// The write is therefore bounded by the connection's context and the write
+	// timeout, never by the context of one subscriber.
+	subscribeCtx, subscribeCancel := context.WithTimeout(c.ctx, c.writeTimeout)
 	defer subscribeCancel()
 
 	if err := c.protocol.Subscribe(subscribeCtx, c.conn, id, req); err != nil {
